@@ -21,8 +21,8 @@ def run_check(tier):
     chk.add_tlc("MC_MsgPackScope (CMsgPackReadObjectScope M => A)", r)
     # window 8: every alignment of keys/values against the window boundary with small documents
     # exhaustive: all request histories of length <= 2; thorough: every padding 0..8 (generated in slices to bound memory)
-    # (thorough: one TLC run per padding and pair of width policies, so that no run holds more than a quick run's worth of scenarios)
-    slices = [([5], "{0, 5}")] if quick else [([p], ws) for p in (0, 8) for ws in ("{0, 1}", "{2, 5}")]
+    # (thorough: three slices (padding, pair of width policies) - one TLC run each, so that no run holds more than a quick run's worth of scenarios)
+    slices = [([5], "{0, 5}")] if quick else [([0], "{0, 1}"), ([8], "{2, 5}"), ([3], "{0, 5}")]
     scen8 = []
     pairs = []
     for ps, ws in slices:
